@@ -2,7 +2,7 @@
  *
  * Job file, one execution per line (whitespace separated, no spaces inside fields):
  *   exec <gtfile|-> <archive> <stream> <policy> <xdir|-> <failk> <flags> <ops>
- *     stream : path | FILE | pipe | cb | cbns      (how the input stream is built)
+ *     stream : path | FILE | pipe | drip | cb | cbns      (how the input stream is built)
  *     policy : plain | eod | eof | default          (default: do not call set_dir_policy)
  *     xdir   : directory to chdir into for extraction ("-": stay)
  *     failk  : fail the k-th allocation made inside library calls (0: none)
@@ -162,6 +162,8 @@ int main(int argc, char **argv)
 		if (!strcmp(skind, "path")) LIB(st = lha_input_stream_from(arc));
 		else if (!strcmp(skind, "FILE")) { fh = fopen(arc, "rb"); LIB(st = lha_input_stream_from_FILE(fh)); }
 		else if (!strcmp(skind, "pipe")) { char cmd[4200]; snprintf(cmd, sizeof cmd, "cat '%s'", arc); fh = popen(cmd, "r"); is_popen = 1; LIB(st = lha_input_stream_from_FILE(fh)); }
+		/* drip: a pipe whose writer hands over 7 bytes at a time, so that the operating system's reads come back short */
+		else if (!strcmp(skind, "drip")) { char cmd[4300]; snprintf(cmd, sizeof cmd, "dd if='%s' bs=7 2>/dev/null", arc); fh = popen(cmd, "r"); is_popen = 1; LIB(st = lha_input_stream_from_FILE(fh)); }
 		else if (!strcmp(skind, "cb")) LIB(st = lha_input_stream_new(&cbt, NULL));
 		else LIB(st = lha_input_stream_new(&cbt_ns, NULL));
 		LHAReader *r = NULL;
